@@ -2,7 +2,8 @@
 """Regenerates /verif/MANIFEST.json from tools/checks.json (one entry per implemented property)."""
 import json, subprocess, os
 ROOT='/verif'
-checks=json.load(open(f'{ROOT}/tools/checks.json'))
+import glob
+checks=[json.load(open(f)) for f in sorted(glob.glob(f'{ROOT}/tools/checks/C*.json'))]
 props=[json.loads(l) for l in open(f'{ROOT}/properties.jsonl')]
 ids=[p['id'] for p in props]
 hooks_commits=subprocess.run(['git','-C','/repo','log','--format=%H %s'],capture_output=True,text=True).stdout.splitlines()
